@@ -79,6 +79,8 @@ def summarize(v, depth=0):
         return {"dev": v.name}
     if isinstance(v, BaseException):
         return {"exc": type(v).__name__, "msg": str(v)[:120]}
+    if hasattr(v, "cid") and hasattr(v, "raise_at"):  # a RecordingCallback
+        return {"cb": v.cid}
     if depth > 3:
         return "..."
     if isinstance(v, dict):
